@@ -577,6 +577,10 @@ def run_check(pid, tier, seed, repo, replay=None):
             "notes": ctx.notes,
         }
         level = prop.LEVEL
+        if level == "translation_validation":
+            # each case is one "program" (input of the validated function); the proved specification is evaluated on it
+            cov["programs"] = total_eval
+            cov["disagreements_checked"] = sum(st.get("mismatches", 0) + st.get("oracle_failures", 0) for st in ev_streams)
         ev = {"property_id": pid, "tier": tier, "seed": seed, "level": level, "coverage": cov,
               "assumptions": list(getattr(prop, "ASSUMPTIONS", [])) + [prop.LEVEL_NOTE],
               "wall_s": wall, "violations": len(with_input) + (1 if (without and not with_input) else 0)}
